@@ -86,6 +86,7 @@ def ensure_facts(config='default', repo=None, quiet=False):
     if os.path.exists(marker):
         try:
             os.utime(out)   # LRU: keep entries that are in use
+            os.utime(os.path.dirname(out))
         except OSError:
             pass
         return out, json.load(open(marker))
